@@ -12,6 +12,7 @@
 -/
 import Hv.Data.BeaconLemmas
 import Hv.Data.BeaconSingle
+import Hv.Data.BeaconRange
 
 namespace Hv.C07
 open Hv.Beacon
@@ -29,9 +30,25 @@ def HoldsRace (cfg : Cfg) : Prop :=
   ∀ (h : List Op) (q : Query) (res : List Rec),
     answerSecond cfg (run cfg h) q = some res → CorrectPage res q (run cfg h).store
 
+/-- the claim-race witness: `k1` (n = 1) and `k2` (n = 2) are selected by a key-ordered shift for
+    `n >= 1`; before the shifter gets to its deletes `k1`'s counter is set to 0 (it does not match any
+    more).  `k1` must be alive and back in the key index afterwards, `k2` claimed. -/
+def claimWitnessOk (cfg : Cfg) : Bool :=
+  let q : Query := { slot := .key, asc := true, from_ := 0, limit := 0, fromT := none, toT := none }
+  let st0 := run cfg [.set { key := "k0", ct := .i64, val := 7, created := 0, updated := 0, expire := 0 },
+                      .set { key := "k1", ct := .bytes, val := 1, created := 0, updated := 0, expire := 0 },
+                      .set { key := "k2", ct := .bytes, val := 2, created := 0, updated := 0, expire := 0 }]
+  let (st1, keys) := claimSelect cfg st0 q 1
+  let st2 := stepSet cfg st1 { key := "k1", ct := .bytes, val := 0, created := 0, updated := 0, expire := 0 }
+  let (st3, claimed) := claimRelease cfg st2 1 keys
+  claimed == ["k2"] && (answer cfg st3 q).map (·.map (·.key)) == some ["k0", "k1"]
+
+/-- …in the forced schedule of `claimWitnessOk` the record that lost the claim is read again -/
+def HoldsClaim (cfg : Cfg) : Prop := claimWitnessOk cfg = true
+
 /-- Full-strength statement: every answered read is a correct page, the second of two racing
-    first readers included. -/
-def Holds (cfg : Cfg) : Prop := HoldsSeq cfg ∧ HoldsRace cfg
+    first readers included, and a record that loses a claim race is back in its index. -/
+def Holds (cfg : Cfg) : Prop := HoldsSeq cfg ∧ HoldsRace cfg ∧ HoldsClaim cfg
 
 /-- the same, for reads of the index types in `S` only (the history is still arbitrary) -/
 def HoldsFor (cfg : Cfg) (S : Slot → Prop) : Prop :=
@@ -139,17 +156,87 @@ theorem beacon_sorted_inv (cfg : Cfg) (s : Slot) (hg : SlotGood cfg s) (h : List
   obtain ⟨ha, hd⟩ := hp hi
   exact ⟨⟨ha.perm hs, ha.sorted⟩, ⟨hd.perm hs, hd.sorted⟩⟩
 
+theorem page_limit_all (q : Query) (n : Nat) (w : List Rec) (hw : w.length ≤ n) :
+    page { q with limit := (if q.limit = 0 then n else q.limit) } w = page q w := by
+  unfold page
+  simp only []
+  by_cases hl0 : q.limit = 0
+  · simp only [hl0, if_true]
+    split
+    · rfl
+    · apply List.take_of_length_le
+      rw [List.length_drop]; omega
+  · simp only [hl0, if_false]
+
+/-- the read of an index whose ordered slice is what it should be (`ListOk`) is a correct page —
+    for every offset, limit and window, bounds outside the representable range included -/
+theorem correct_of_listOk (cfg : Cfg) (hb : BsGood cfg) (hw : cfg.windowBoundsChecked = true) (q : Query) (store : List Rec)
+    (hs : KeysNodup store) (hr : ∀ r ∈ store, InR r) (l : List Rec) (hlok : ListOk q.slot q.asc store l) :
+    CorrectPage (readList cfg q l (if q.limit = 0 then store.length else q.limit)) q store := by
+  have hperm := hlok.perm hs
+  refine ⟨l, hperm, ?_, ?_⟩
+  · refine hlok.sorted.imp ?_
+    intro a b hab
+    have := (ordB_iff_sle q.slot q.asc a b).mp hab
+    unfold ord
+    cases hqa : q.asc <;> simpa [hqa] using this
+  · have hlen : l.length ≤ store.length := by
+      rw [hperm.length_eq]; exact List.length_filter_le _ _
+    have hrl : (inRange q l).length ≤ store.length := by
+      unfold inRange
+      split
+      · have := List.length_filter_le (inWindow q) l; omega
+      · exact hlen
+    rw [← page_limit_all q store.length (inRange q l) hrl]
+    unfold readList
+    cases ht : q.slot.isTime
+    · -- key / value index: no window
+      simp only [Bool.false_eq_true, if_false]
+      have := page_correct cfg hb { q with limit := (if q.limit = 0 then store.length else q.limit) } l hlok.sorted
+      simp only [ht, Bool.false_eq_true, if_false] at this
+      rw [this]
+      simp [inRange, ht]
+    · simp only [if_true]
+      have hx : ∀ r ∈ l, inI64 (ts q.slot r) := fun r hrl' => ts_inI64 q.slot r (hr r ((hlok.mem r).mp hrl').1)
+      cases hew : effWindow cfg q.fromT q.toT with
+      | none =>
+        simp only []
+        have hnil : inRange q l = [] := by
+          simp only [inRange, ht, if_true]
+          rw [List.filter_eq_nil_iff]
+          intro r hrl'
+          have := effWindow_spec cfg hw q.fromT q.toT (ts q.slot r) (hx r hrl')
+          rw [hew] at this
+          rw [inWindow_eq_win, this]; simp
+        rw [hnil]; simp [page]
+      | some ft =>
+        obtain ⟨f, t⟩ := ft
+        simp only []
+        have hpc := page_correct cfg hb { q with fromT := f, toT := t, limit := (if q.limit = 0 then store.length else q.limit) } l hlok.sorted
+        simp only [ht, if_true] at hpc
+        rw [hpc]
+        have hsame : inRange { q with fromT := f, toT := t, limit := (if q.limit = 0 then store.length else q.limit) } l = inRange q l := by
+          simp only [inRange, ht, if_true]
+          apply List.filter_congr
+          intro r hrl'
+          have := effWindow_spec cfg hw q.fromT q.toT (ts q.slot r) (hx r hrl')
+          rw [hew] at this
+          rw [inWindow_eq_win, inWindow_eq_win]
+          exact this
+        rw [hsame]
+        rfl
+
 /-- …hence every read of that index type is a correct page. -/
-theorem slot_correct (cfg : Cfg) (hb : BsGood cfg) (s : Slot) (hg : SlotGood cfg s) :
+theorem slot_correct (cfg : Cfg) (hb : BsGood cfg) (hw : cfg.windowBoundsChecked = true) (s : Slot) (hg : SlotGood cfg s) :
     HoldsFor cfg (fun x => x = s) := by
   intro h q res hq ha
   subst hq
   obtain ⟨hs, hp⟩ := slotInv_run hg h
+  have hr := rangeInv_run cfg h
   generalize run cfg h = st at *
   unfold answer at ha
   cases hempty : st.store.isEmpty
   · simp only [hempty, Bool.false_eq_true, if_false] at ha
-    -- the pair after the build step
     have hpair : (stepBuild cfg st q).pairs (phys cfg q.slot) = (st.pairs q.slot).build cfg q.slot st.store := by
       simp only [stepBuild, hempty, Bool.false_eq_true, if_false, setPair, if_true, hg.phys]
     have hok : PairOk q.slot st.store ((st.pairs q.slot).build cfg q.slot st.store) := hp.build hg hs
@@ -161,95 +248,21 @@ theorem slot_correct (cfg : Cfg) (hb : BsGood cfg) (s : Slot) (hg : SlotGood cfg
       cases hqa : q.asc
       · simp only [hqa, Bool.false_eq_true, if_false] at hl; rw [← hl]; exact hdesc
       · simp only [hqa, if_true] at hl; rw [← hl]; exact hasc
-    have hperm := hlok.perm hs
-    refine ⟨l, hperm, ?_, ?_⟩
-    · refine hlok.sorted.imp ?_
-      intro a b hab
-      have := (ordB_iff_sle q.slot q.asc a b).mp hab
-      unfold ord
-      cases hqa : q.asc <;> simpa [hqa] using this
-    · -- the effective limit: 0 is replaced by the number of live records, which is "all"
-      have hstore : st.store.length ≠ 0 := by
-        intro h0
-        have : st.store = [] := List.eq_nil_of_length_eq_zero h0
-        rw [this] at hempty; simp at hempty
-      have hlen : l.length ≤ st.store.length := by
-        rw [hperm.length_eq]; exact List.length_filter_le _ _
-      have hpc := page_correct cfg hb { q with limit := (if q.limit = 0 then st.store.length else q.limit) } l hlok.sorted
-      have hres : res = getMany cfg l (ts q.slot) q.asc q.from_ (if q.limit = 0 then st.store.length else q.limit)
-          (if q.slot.isTime then q.fromT else none) (if q.slot.isTime then q.toT else none) := by
-        cases ht : q.slot.isTime
-        · simp only [ht, Bool.false_eq_true, if_false, Option.some.injEq] at ha ⊢; exact ha.symm
-        · simp only [ht, if_true, Option.some.injEq] at ha ⊢; exact ha.symm
-      rw [hres]
-      simp only [] at hpc
-      rw [hpc]
-      unfold page inRange
-      simp only []
-      by_cases hl0 : q.limit = 0
-      · simp only [hl0, if_true, hstore, if_false]
-        apply List.take_of_length_le
-        have h1 : (List.drop q.from_ (if q.slot.isTime = true then List.filter (inWindow { q with limit := st.store.length }) l else l)).length
-            ≤ l.length := by
-          rw [List.length_drop]
-          split
-          · have := List.length_filter_le (inWindow { q with limit := st.store.length }) l
-            omega
-          · omega
-        have hw : inWindow { q with limit := st.store.length } = inWindow q := rfl
-        rw [hw] at h1 ⊢
-        omega
-      · simp only [hl0, if_false]
+    simp only [Option.some.injEq] at ha
+    rw [← ha]
+    exact correct_of_listOk cfg hb hw q st.store hs hr l hlok
   · simp [hempty] at ha
-
-/-- the read of an index whose ordered slice is what it should be (`ListOk`) is a correct page -/
-theorem correct_of_listOk (cfg : Cfg) (hb : BsGood cfg) (q : Query) (store : List Rec)
-    (hne : store.isEmpty = false) (hs : KeysNodup store) (l : List Rec) (hlok : ListOk q.slot q.asc store l) :
-    CorrectPage
-      (getMany cfg l (ts q.slot) q.asc q.from_ (if q.limit = 0 then store.length else q.limit)
-        (if q.slot.isTime then q.fromT else none) (if q.slot.isTime then q.toT else none)) q store := by
-  have hperm := hlok.perm hs
-  refine ⟨l, hperm, ?_, ?_⟩
-  · refine hlok.sorted.imp ?_
-    intro a b hab
-    have := (ordB_iff_sle q.slot q.asc a b).mp hab
-    unfold ord
-    cases hqa : q.asc <;> simpa [hqa] using this
-  · have hstore : store.length ≠ 0 := by
-      intro h0
-      have : store = [] := List.eq_nil_of_length_eq_zero h0
-      rw [this] at hne; simp at hne
-    have hlen : l.length ≤ store.length := by
-      rw [hperm.length_eq]; exact List.length_filter_le _ _
-    have hpc := page_correct cfg hb { q with limit := (if q.limit = 0 then store.length else q.limit) } l hlok.sorted
-    simp only [] at hpc
-    rw [hpc]
-    unfold page inRange
-    simp only []
-    by_cases hl0 : q.limit = 0
-    · simp only [hl0, if_true, hstore, if_false]
-      apply List.take_of_length_le
-      have h1 : (List.drop q.from_ (if q.slot.isTime = true then List.filter (inWindow { q with limit := store.length }) l else l)).length
-          ≤ l.length := by
-        rw [List.length_drop]
-        split
-        · have := List.length_filter_le (inWindow { q with limit := store.length }) l
-          omega
-        · omega
-      have hw : inWindow { q with limit := store.length } = inWindow q := rfl
-      rw [hw] at h1 ⊢
-      omega
-    · simp only [hl0, if_false]
 
 /-- **Partial theorem for value indexes (single-type swamps).**  With the one shared value pair that
     every add and every content change drops (the current tree): in a swamp all of whose records
     have content type `t` — every Set writes `t`, Increment only where `t` is int64 — and whose value
     reads ask for `t` only, every read of the value index of `t`, after every such history, is a
     correct page.  (Reads of the other index types, deletes, patches, shifts and reloads are free.) -/
-theorem value_single_type (cfg : Cfg) (hb : BsGood cfg) (hv : ValFacts cfg) (t : CT) (h : List Op)
+theorem value_single_type (cfg : Cfg) (hb : BsGood cfg) (hw : cfg.windowBoundsChecked = true) (hv : ValFacts cfg) (t : CT) (h : List Op)
     (hok : ∀ op ∈ h, OpOk t op) (q : Query) (hq : q.slot = .value t) (res : List Rec)
     (ha : answer cfg (run cfg h) q = some res) : CorrectPage res q (run cfg h).store := by
   have hinv := singleInv_run hv h hok
+  have hr := rangeInv_run cfg h
   generalize run cfg h = st at *
   unfold answer at ha
   cases hempty : st.store.isEmpty
@@ -273,13 +286,9 @@ theorem value_single_type (cfg : Cfg) (hb : BsGood cfg) (hv : ValFacts cfg) (t :
       cases hqa : q.asc
       · simp only [hqa, Bool.false_eq_true, if_false] at hl; rw [← hl]; exact hdesc
       · simp only [hqa, if_true] at hl; rw [← hl]; exact hasc
-    have hres : res = getMany cfg l (ts q.slot) q.asc q.from_ (if q.limit = 0 then st.store.length else q.limit)
-        (if q.slot.isTime then q.fromT else none) (if q.slot.isTime then q.toT else none) := by
-      cases ht : q.slot.isTime
-      · simp only [ht, Bool.false_eq_true, if_false, Option.some.injEq] at ha ⊢; exact ha.symm
-      · simp only [ht, if_true, Option.some.injEq] at ha ⊢; exact ha.symm
-    rw [hres]
-    exact correct_of_listOk cfg hb q st.store hempty hs l hlok
+    simp only [Option.some.injEq] at ha
+    rw [← ha]
+    exact correct_of_listOk cfg hb hw q st.store hs hr l hlok
   · simp [hempty] at ha
 
 /-! ### 4. decidable soundness of the facts -/
@@ -305,11 +314,15 @@ def slotGoodB (cfg : Cfg) : Slot → Bool
       cfg.updRefreshValue && voidSafeB cfg
 
 def bsGoodB (cfg : Cfg) : Bool :=
-  cfg.bsAscFrom == .lt && cfg.bsAscTo == .lt && cfg.bsDescTo == .lt && cfg.bsDescFrom == .lt
+  cfg.bsAscFrom == .lt && cfg.bsAscTo == .lt && cfg.bsDescTo == .lt && cfg.bsDescFrom == .lt && cfg.windowBoundsChecked
 
 theorem bsGood_of (cfg : Cfg) (h : bsGoodB cfg = true) : BsGood cfg := by
   simp only [bsGoodB, Bool.and_eq_true, beq_iff_eq] at h
-  exact ⟨h.1.1.1, h.1.1.2, h.1.2, h.2⟩
+  exact ⟨h.1.1.1.1, h.1.1.1.2, h.1.1.2, h.1.2⟩
+
+theorem winChecked_of (cfg : Cfg) (h : bsGoodB cfg = true) : cfg.windowBoundsChecked = true := by
+  simp only [bsGoodB, Bool.and_eq_true] at h
+  exact h.2
 
 theorem slotGood_of (cfg : Cfg) (s : Slot) (h : slotGoodB cfg s = true) : SlotGood cfg s := by
   cases s with
@@ -384,11 +397,12 @@ theorem slotGood_of (cfg : Cfg) (s : Slot) (h : slotGoodB cfg s = true) : SlotGo
 /-- What `ShiftMatchingTreasures` (no filters) hands out and removes: after every history, the first
     `HowMany` (0: all) records of the index in its order, inside `[from, to)` — a correct page with
     offset 0 of the swamp's contents before the shift. -/
-theorem shift_correct (cfg : Cfg) (s : Slot) (hg : SlotGood cfg s) (h : List Op) (q : Query)
+theorem shift_correct (cfg : Cfg) (hw : cfg.windowBoundsChecked = true) (s : Slot) (hg : SlotGood cfg s) (h : List Op) (q : Query)
     (hq : q.slot = s) (h0 : q.from_ = 0) (hne : (run cfg h).store.isEmpty = false) :
     CorrectPage (matchList cfg (run cfg h) q) q (run cfg h).store := by
   subst hq
   obtain ⟨hs, hp⟩ := slotInv_run hg h
+  have hr := rangeInv_run cfg h
   generalize run cfg h = st at *
   have hpair : (stepBuild cfg st q).pairs (phys cfg q.slot) = (st.pairs q.slot).build cfg q.slot st.store := by
     simp only [stepBuild, hne, Bool.false_eq_true, if_false, setPair, if_true, hg.phys]
@@ -409,25 +423,48 @@ theorem shift_correct (cfg : Cfg) (s : Slot) (hg : SlotGood cfg s) (h : List Op)
     have := (ordB_iff_sle q.slot q.asc a b).mp hab
     unfold ord
     cases hqa : q.asc <;> simpa [hqa] using this
-  · have hw : (fun r => inTimeRange (ts q.slot r) q.fromT q.toT) = inWindow q := by
-      funext r
-      unfold inTimeRange inWindow
-      cases q.fromT <;> cases q.toT <;> rfl
-    rw [hw]
-    simp only [page, inRange, h0, List.drop_zero]
+  · have hm : windowed cfg q l = inRange q l := by
+      unfold inRange windowed
+      cases ht : q.slot.isTime
+      · simp
+      · simp only [if_true]
+        have hx : ∀ r ∈ l, inI64 (ts q.slot r) := fun r hrl' => ts_inI64 q.slot r (hr r ((hlok.mem r).mp hrl').1)
+        have hitr : ∀ (f t : Option Int) (x : Int), inTimeRange x f t = win f t x := by
+          intro f t x
+          unfold inTimeRange win loOk hiOk
+          cases f <;> cases t <;> rfl
+        cases hew : effWindow cfg q.fromT q.toT with
+        | none =>
+          simp only []
+          symm
+          rw [List.filter_eq_nil_iff]
+          intro r hrl'
+          have := effWindow_spec cfg hw q.fromT q.toT (ts q.slot r) (hx r hrl')
+          rw [hew] at this
+          rw [inWindow_eq_win, this]; simp
+        | some ft =>
+          obtain ⟨f, t⟩ := ft
+          simp only []
+          apply List.filter_congr
+          intro r hrl'
+          have := effWindow_spec cfg hw q.fromT q.toT (ts q.slot r) (hx r hrl')
+          rw [hew] at this
+          rw [hitr, inWindow_eq_win]
+          exact this
+    simp only [hm, page, h0, List.drop_zero]
 
 /-- …for every index type whose facts are sound -/
-theorem shift_partial (cfg : Cfg) (h : List Op) (q : Query) (hs : slotGoodB cfg q.slot = true)
+theorem shift_partial (cfg : Cfg) (hw : cfg.windowBoundsChecked = true) (h : List Op) (q : Query) (hs : slotGoodB cfg q.slot = true)
     (h0 : q.from_ = 0) (hne : (run cfg h).store.isEmpty = false) :
     CorrectPage (matchList cfg (run cfg h) q) q (run cfg h).store :=
-  shift_correct cfg q.slot (slotGood_of cfg _ hs) h q rfl h0 hne
+  shift_correct cfg hw q.slot (slotGood_of cfg _ hs) h q rfl h0 hne
 
 /-- all facts sound -/
 def seqGoodB (cfg : Cfg) : Bool :=
   bsGoodB cfg && slotGoodB cfg .key && slotGoodB cfg .created && slotGoodB cfg .updated &&
   slotGoodB cfg .expire && slotGoodB cfg (.value .i64)
 
-def goodB (cfg : Cfg) : Bool := seqGoodB cfg && cfg.initialisedAfterFill
+def goodB (cfg : Cfg) : Bool := seqGoodB cfg && cfg.initialisedAfterFill && claimWitnessOk cfg
 
 /-- **Full theorem (repaired facts).**  If every change of a sort attribute re-files the record,
     incremental inserts re-sort with the beacon's own comparator, cold builds and inserts admit
@@ -444,7 +481,7 @@ theorem holdsSeq_of_good (cfg : Cfg) (h : seqGoodB cfg = true) : HoldsSeq cfg :=
     | updated => exact slotGood_of cfg _ hu
     | expire => exact slotGood_of cfg _ he
     | value t => exact slotGood_of cfg _ (by simpa [slotGoodB] using hv)
-  exact slot_correct cfg (bsGood_of cfg hb) q.slot hsg hist q res rfl ha
+  exact slot_correct cfg (bsGood_of cfg hb) (winChecked_of cfg hb) q.slot hsg hist q res rfl ha
 
 /-- with the flag published last, the second of two racing first readers is answered like a lone one -/
 theorem holdsRace_of (cfg : Cfg) (hs : HoldsSeq cfg) (hf : cfg.initialisedAfterFill = true) : HoldsRace cfg := by
@@ -457,14 +494,14 @@ theorem holdsRace_of (cfg : Cfg) (hs : HoldsSeq cfg) (hf : cfg.initialisedAfterF
 
 theorem holds_of_good (cfg : Cfg) (h : goodB cfg = true) : Holds cfg := by
   simp only [goodB, Bool.and_eq_true] at h
-  exact ⟨holdsSeq_of_good cfg h.1, holdsRace_of cfg (holdsSeq_of_good cfg h.1) h.2⟩
+  exact ⟨holdsSeq_of_good cfg h.1.1, holdsRace_of cfg (holdsSeq_of_good cfg h.1.1) h.1.2, h.2⟩
 
 /-- **Partial theorem.**  Whatever the other facts are: the index types whose own facts are sound
     are always read correctly, for every history (including histories that break other indexes). -/
 theorem holds_partial (cfg : Cfg) (hb : bsGoodB cfg = true) :
     HoldsFor cfg (fun s => slotGoodB cfg s = true) := by
   intro hist q res hs ha
-  exact slot_correct cfg (bsGood_of cfg hb) q.slot (slotGood_of cfg _ hs) hist q res rfl ha
+  exact slot_correct cfg (bsGood_of cfg hb) (winChecked_of cfg hb) q.slot (slotGood_of cfg _ hs) hist q res rfl ha
 
 
 /-! ### 5. counterexamples: witness histories evaluated in the model -/
@@ -573,6 +610,11 @@ def witnesses : List (String × List Op × Query) := [
   ("C07-cold-build-no-zero-filter", [setOp "k1" .i64 1 0 0 0, setOp "k2" .i64 2 2 2 2], fullRead .expire true),
   ("C07-void-dropped-from-key-index",
     [setOp "k1" .i64 1 0 0 0, .read (fullRead .key true), setOp "k1" .void 0 0 0 0], fullRead .key true),
+  -- an upper bound in year 9999: its UnixNano wraps to a negative number
+  ("C07-window-bound-wraps", [setOp "k1" .i64 1 3 0 0, setOp "k2" .i64 2 5 0 0],
+    windowRead .created true none (some 253402300799000000000)),
+  ("C07-window-bound-wraps", [setOp "k1" .i64 1 3 0 0, setOp "k2" .i64 2 5 0 0],
+    windowRead .created false (some (-62135596800000000000)) none),
   -- a patch clears the expiry of a record filed in the built expiration index
   ("C07-expire-cleared-refiled",
     [setOp "k1" .bytes 0 0 0 3, setOp "k2" .bytes 0 0 0 5, .read (fullRead .expire true), .patch "k1" .clear],
@@ -611,15 +653,18 @@ theorem refutes_of_race (cfg : Cfg) (h : raceFails cfg = true) : ¬ HoldsRace cf
     simp [ha, this] at h
 
 def findings (cfg : Cfg) : List String :=
-  seqFindings cfg ++ (if raceFails cfg then ["C07-first-readers-race"] else [])
+  seqFindings cfg ++ (if raceFails cfg then ["C07-first-readers-race"] else []) ++
+  (if !claimWitnessOk cfg then ["C07-claim-loser-dropped"] else [])
 
 theorem refutes_of_findings (cfg : Cfg) (h : findings cfg ≠ []) : ¬ Holds cfg := by
   intro hh
   unfold findings at h
   by_cases hs : seqFindings cfg = []
   · by_cases hr : raceFails cfg = true
-    · exact refutes_of_race cfg hr hh.2
-    · simp [hs, hr] at h
+    · exact refutes_of_race cfg hr hh.2.1
+    · by_cases hc : claimWitnessOk cfg = true
+      · simp [hs, hr, hc] at h
+      · exact hc hh.2.2
   · exact refutes_of_seqFindings cfg hs hh.1
 
 /-- the facts of the tree before the four `fix:` commits on the index maintenance -/
@@ -630,18 +675,19 @@ def beforeFix : Cfg := {
   addGuardCreated := true, addGuardUpdated := true, addGuardExpire := true, addGuardValueType := false,
   updRefreshCreated := false, updRefreshUpdated := false, updRefreshValue := false, updRefreshExpireOnFlag := true,
   typeChangeDetected := false, valueShared := true, flagsSticky := true, setVoidClearsTyped := false,
-  initialisedAfterFill := false, refileGuardExpire := true, patchExpiredReindexesAll := true }
+  initialisedAfterFill := false, refileGuardExpire := true, patchExpiredReindexesAll := true,
+  windowBoundsChecked := false, claimLoserRefiled := true }
 
 /-- the facts of the tree as of this writing: `SaveFunction` re-files a treasure in the built
     creation-time or update-time index when that timestamp changes, and any add to / content change in
     a built value index drops it (the next read rebuilds it with the requested type's comparator);
     `buildBeacon` publishes `initialized` last, under a build lock -/
 def current : Cfg := { beforeFix with
-  initialisedAfterFill := true, setVoidClearsTyped := true, resortValue := .invalidate, updRefreshCreated := true, updRefreshUpdated := true, updRefreshValue := true }
+  windowBoundsChecked := true, initialisedAfterFill := true, setVoidClearsTyped := true, resortValue := .invalidate, updRefreshCreated := true, updRefreshUpdated := true, updRefreshValue := true }
 
 /-- the repaired facts -/
 def repaired : Cfg := { beforeFix with
-  initialisedAfterFill := true,
+  windowBoundsChecked := true, initialisedAfterFill := true,
   resortValue := .own, coldFilterValueType := true, addGuardValueType := true,
   updRefreshCreated := true, updRefreshUpdated := true, updRefreshValue := true, valueShared := false }
 
@@ -675,7 +721,8 @@ theorem witness_value_mixed_types :
 
 theorem findings_beforeFix : findings beforeFix =
     ["C07-updated-update-stale", "C07-created-update-stale", "C07-value-update-stale",
-     "C07-value-insert-wrong-comparator", "C07-value-index-mixed-types", "C07-first-readers-race"] := by decide
+     "C07-value-insert-wrong-comparator", "C07-value-index-mixed-types", "C07-window-bound-wraps",
+     "C07-first-readers-race"] := by decide
 
 /-- Closed witness of the race: the key index of a one-record swamp is not built; the first reader
     has raised `initialized` and not filled the slice yet; the second reader is answered `[]`. -/
@@ -695,6 +742,17 @@ example : findings repaired = [] := by decide
 example : findings { repaired with bsAscFrom := .le } = ["C07-window-bounds-operator"] := by decide
 example : findings { repaired with bsDescTo := .le } = ["C07-window-bounds-operator"] := by decide
 example : findings { repaired with coldFilterExpire := false } = ["C07-cold-build-no-zero-filter"] := by decide
+example : findings { repaired with claimLoserRefiled := false } = ["C07-claim-loser-dropped"] := by decide
+example : findings { current with claimLoserRefiled := false } = ["C07-value-index-mixed-types", "C07-claim-loser-dropped"] := by decide
+example : findings { repaired with windowBoundsChecked := false } = ["C07-window-bound-wraps"] := by decide
+/-- Closed witness: an upper window bound of 9999-12-31T23:59:59Z becomes a negative int64, and the
+    creation-time read of two records returns nothing. -/
+theorem witness_window_bound_wraps :
+    answer { current with windowBoundsChecked := false }
+      (run { current with windowBoundsChecked := false } [setOp "k1" .i64 1 3 0 0, setOp "k2" .i64 2 5 0 0])
+      (windowRead .created true none (some 253402300799000000000)) = some [] ∧
+    (answer current (run current [setOp "k1" .i64 1 3 0 0, setOp "k2" .i64 2 5 0 0])
+      (windowRead .created true none (some 253402300799000000000))).map (·.map (·.key)) = some ["k1", "k2"] := by decide
 example : findings { repaired with refileGuardExpire := false } = ["C07-expire-cleared-refiled"] := by decide
 example : findings { repaired with patchExpiredReindexesAll := false } = ["C07-patch-expired-partial-reindex"] := by decide
 /-- Closed witness: with the re-add unguarded, clearing `k1`'s expiry by a patch leaves it in the
@@ -752,7 +810,7 @@ theorem valFacts_of (cfg : Cfg) (h : valFactsB cfg = true) : ValFacts cfg := by
 /-- **What holds on the current tree for value indexes**: single-type swamps. -/
 theorem holds_current_single_type (t : CT) (h : List Op) (hok : ∀ op ∈ h, OpOk t op) (q : Query) (hq : q.slot = .value t)
     (res : List Rec) (ha : answer current (run current h) q = some res) : CorrectPage res q (run current h).store :=
-  value_single_type current (bsGood_of current (by decide)) (valFacts_of current (by decide)) t h hok q hq res ha
+  value_single_type current (bsGood_of current (by decide)) (by decide) (valFacts_of current (by decide)) t h hok q hq res ha
 
 /-- non-vacuity: a float swamp with an update and an insert after the index was built is read sorted;
     the same reads with one string record in the swamp are not (the recorded finding) -/
@@ -819,6 +877,10 @@ structure Facts where
   refileGuardExpire : Tri
   /-- `PatchExpired` re-indexes its whole selection -/
   patchExpiredReindexesAll : Tri
+  /-- window bounds that `UnixNano` cannot represent are recognised instead of converted -/
+  windowBoundsChecked : Tri
+  /-- `deleteHandlerIf` puts a record that is not wanted any more back into the indexes -/
+  claimLoserRefiled : Tri
   /-- `PatchExpired`, `SelectExpiredForPatchWithCap`, `ReindexExpiration`, `applyPatchMeta`,
       `CloneAndDeleteMatchingTreasures` and `beacon.ShiftMatching` have the modelled shape -/
   claimPathsStandard : Tri
@@ -850,7 +912,8 @@ def cfgOf (f : Facts) : Cfg := {
   updRefreshValue := f.updRefreshValue.isYes, updRefreshExpireOnFlag := f.updRefreshExpireOnFlag.isYes,
   typeChangeDetected := f.typeChangeDetected.isYes, valueShared := f.valueShared.isYes, flagsSticky := f.flagsSticky.isYes,
   setVoidClearsTyped := f.setVoidClearsTyped.isYes, initialisedAfterFill := f.initialisedAfterFill.isYes,
-  refileGuardExpire := f.refileGuardExpire.isYes, patchExpiredReindexesAll := f.patchExpiredReindexesAll.isYes }
+  refileGuardExpire := f.refileGuardExpire.isYes, patchExpiredReindexesAll := f.patchExpiredReindexesAll.isYes,
+  windowBoundsChecked := f.windowBoundsChecked.isYes, claimLoserRefiled := f.claimLoserRefiled.isYes }
 
 /-- a fact the model depends on was not recognised in the source -/
 def unknownFact (f : Facts) : Option String :=
@@ -867,7 +930,7 @@ def unknownFact (f : Facts) : Option String :=
       f.addGuardCreated, f.addGuardUpdated, f.addGuardExpire, f.addGuardValueType,
       f.updRefreshCreated, f.updRefreshUpdated, f.updRefreshValue, f.updRefreshExpireOnFlag,
       f.typeChangeDetected, f.valueShared, f.flagsSticky, f.setVoidClearsTyped, f.initialisedAfterFill,
-      f.refileGuardExpire].any (· == .unknown) then
+      f.refileGuardExpire, f.windowBoundsChecked, f.claimLoserRefiled].any (· == .unknown) then
     some "treasuresForBeacon / addTreasureToBeacons / SaveFunction / treasure flags" else
   if f.patchExpiredReindexesAll == .unknown || !f.claimPathsStandard.isYes then
     some "PatchExpired / ReindexExpiration / ShiftMatching" else
@@ -898,7 +961,7 @@ theorem classify_sound (f : Facts) : (classify f).Sound (Holds (cfgOf f)) (Parti
     · split
       · rename_i hf
         refine ⟨refutes_of_findings _ ?_, fun hb => ⟨holds_partial _ hb, fun hv t h hok q hq res ha =>
-          value_single_type _ (bsGood_of _ hb) (valFacts_of _ hv) t h hok q hq res ha⟩⟩
+          value_single_type _ (bsGood_of _ hb) (winChecked_of _ hb) (valFacts_of _ hv) t h hok q hq res ha⟩⟩
         intro he; rw [he] at hf; simp at hf
       · trivial
 
